@@ -527,3 +527,29 @@ m("benign-total-len-via-iter", "C09", "nomt/src/rollback/mod.rs",
   "    fn total_len(&self) -> usize {\n        self.log.len()",
   "    fn total_len(&self) -> usize {\n        self.log.iter().count()",
   None)
+
+# ---- C11 P1/P2 overlay status domain ----
+m("c11-complete-when-not-live", "C11", "nomt/src/overlay.rs",
+  "            .map_or(false, |status| !status.is_committed())",
+  "            .map_or(false, |status| status.0.load(Ordering::Relaxed) == OverlayStatus::LIVE)",
+  "P1|overlay::LiveOverlay::new|refuse(DROPPED)=True")
+m("c11-completeness-guard-removed", "C11", "nomt/src/overlay.rs",
+  "            .map_or(false, |status| !status.is_committed())\n        {\n            return Err(InvalidAncestors::Incomplete);\n        }",
+  "            .map_or(false, |status| !status.is_committed())\n        {\n            // tolerated: the commit path re-checks the parent marker\n        }",
+  "P1|overlay::LiveOverlay::new|status-guard")
+m("c11-drop-overwrites-committed", "C11", "nomt/src/overlay.rs",
+  "        let _ = self.0.compare_exchange(\n            Self::LIVE,\n            Self::DROPPED,\n            Ordering::Relaxed,\n            Ordering::Relaxed,\n        );",
+  "        self.0.store(Self::DROPPED, Ordering::Relaxed);",
+  "P2|overlay::OverlayStatus::drop|store")
+m("benign-completeness-inline-ne", "C11", "nomt/src/overlay.rs",
+  "            .map_or(false, |status| !status.is_committed())",
+  "            .map_or(false, |status| status.0.load(Ordering::Relaxed) != OverlayStatus::COMMITTED)",
+  None)
+m("benign-completeness-if-let", "C11", "nomt/src/overlay.rs",
+  "        if ancestor_data\n            .last()\n            .unwrap_or(&parent.data)\n            .parent_status\n            .as_ref()\n            .map_or(false, |status| !status.is_committed())\n        {\n            return Err(InvalidAncestors::Incomplete);\n        }",
+  "        if let Some(status) = ancestor_data\n            .last()\n            .unwrap_or(&parent.data)\n            .parent_status\n            .as_ref()\n        {\n            if status.is_committed() {\n                // complete\n            } else {\n                return Err(InvalidAncestors::Incomplete);\n            }\n        }",
+  None)
+m("benign-completeness-two-negatives", "C11", "nomt/src/overlay.rs",
+  "            .map_or(false, |status| !status.is_committed())",
+  "            .map_or(false, |status| {\n                let v = status.0.load(Ordering::Relaxed);\n                v == OverlayStatus::LIVE || v == OverlayStatus::DROPPED\n            })",
+  None)
